@@ -198,13 +198,47 @@ impl RCase {
     }
 }
 
-fn run_rcase(c: &RCase, rep: &mut Report) {
+/// correspondence through the `verif_recoder_hook` dump (real encoder's raw commands + block splits):
+/// `recoder lmb <lgwin> <npostfix> <ndirect> <hedq> <ctx> <nbe> <dc> <input0hex> <input1hex> <cmds> <btl> <btc> <btd> <words>`
+/// answered by `ok <nbe'> <ir…>`
+#[cfg(recoder_hook)]
+fn hook_lines(dumps: &[bbs::verif_recoder_hook::LogMetaBlockDump], mbs: &[Mb], lines: &mut Vec<(String, String)>, rep: &mut Report) {
+    if dumps.len() != mbs.len() { rep.count("hook.dump_count_mismatch"); return; }
+    for (i, (d, mb)) in dumps.iter().zip(mbs.iter()).enumerate() {
+        if mb.bytes.len() > 12000 || d.commands.len() > 1500 { rep.count("hook.mb_too_long_for_a_line"); continue; }
+        if d.input0_len != mb.len0 || d.input0_len + d.input1_len != mb.bytes.len() { rep.count("hook.slice_mismatch"); continue; }
+        let sp = |s: &bbs::verif_recoder_hook::SplitDump| Split { num_types: s.num_types as usize, types: s.types.clone(), lengths: s.lengths.clone() };
+        let cmds: Vec<Command> = d.commands.iter().map(|c| Command { insert_len_: c.0, copy_len_: c.1, dist_extra_: c.2, cmd_prefix_: c.3, dist_prefix_: c.4 }).collect();
+        // reuse the crafted-case word walk: a flat ring holding the meta-block bytes
+        let cr = Crafted { variant: 2, lgwin: d.lgwin, npostfix: d.distance_postfix_bits, ndirect: d.num_direct_distance_codes, hedq: d.high_entropy_detection_quality,
+            nbe: d.num_bytes_encoded, dc: d.dist_cache, mask: usize::MAX >> 1, pos: 0, len: mb.bytes.len(), ring: vec![], cmds, btl: sp(&d.btypel), btc: sp(&d.btypec), btd: sp(&d.btyped) };
+        let cm = if cr.cmds.is_empty() { "-".to_string() } else { cr.cmds.iter().map(cmd_tok).collect::<Vec<_>>().join(";") };
+        let mut words: Vec<String> = Vec::new();
+        let mut seen = std::collections::BTreeSet::new();
+        for (l, o) in needed_words(&cr) { if seen.insert((l, o)) { if let Some(h) = word_answer(l, o) { words.push(format!("{}:{}:{}", l, o, h)); } } }
+        let op = format!("recoder lmb {} {} {} {} {} {} {},{},{},{} {} {} {} {} {} {} {}", d.lgwin, d.distance_postfix_bits, d.num_direct_distance_codes, d.high_entropy_detection_quality,
+            d.context_type_is_some as u8, d.num_bytes_encoded, d.dist_cache[0], d.dist_cache[1], d.dist_cache[2], d.dist_cache[3],
+            hex(&mb.bytes[..mb.len0]), hex(&mb.bytes[mb.len0..]), cm, cr.btl.tok(), cr.btc.tok(), cr.btd.tok(), if words.is_empty() { "-".to_string() } else { words.join(",") });
+        if op.len() >= 65000 { rep.count("hook.mb_too_long_for_a_line"); continue; }
+        let nbe2 = if i + 1 < dumps.len() { dumps[i + 1].num_bytes_encoded } else { d.num_bytes_encoded + mb.bytes.len() };
+        let mut ans = format!("ok {}", nbe2);
+        for t in mb.ir.iter() { if !matches!(t, Ir::Pm) { ans.push(' '); ans.push_str(&t.token()); } }
+        lines.push((op, ans));
+        rep.count("hook.lmb_lines");
+        if d.btypel.types.len() > 1 { rep.count("hook.lmb_with_literal_block_split"); }
+        if d.input1_len != 0 { rep.count("hook.lmb_wrapped_input_pair"); }
+    }
+}
+
+fn run_rcase(c: &RCase, rep: &mut Report, lines: &mut Vec<(String, String)>) {
     let dictv = gen_dict(c.dseed, c.d);
     let dc = dict::Case { lgwin: c.lgwin, q: c.q, d: c.d, seed: c.dseed, magic: c.magic, kind: c.kind, api: c.api, iseed: c.iseed };
     let input = dict::make_input(&dc, &dictv);
     let p = c.params();
     let mut mbs: Vec<Mb> = Vec::new();
     let mut rng = Rng::new(c.iseed ^ 0x7ec0);
+    #[cfg(recoder_hook)]
+    bbs::verif_recoder_hook::start();
     let enc: Result<Vec<u8>, String> = {
         let mut cb = |_pm: &mut interface::PredictionModeContextMap<InputReferenceMut>, cmds: &mut [interface::StaticCommand], mb: InputPair, _a: &mut EncAlloc| { mbs.push(record(cmds, &mb)); };
         match c.api {
@@ -213,6 +247,8 @@ fn run_rcase(c: &RCase, rep: &mut Report) {
             _ => encode_oneshot(&input, &dictv, &p, rng.range(1, 70000) as usize, rng.range(1, 70000) as usize, &mut cb),
         }
     };
+    #[cfg(recoder_hook)]
+    { let dumps = bbs::verif_recoder_hook::take(); if enc.is_ok() { hook_lines(&dumps, &mbs, lines, rep); } }
     rep.evaluations += 1;
     rep.count(&format!("quality.{}", c.q));
     rep.count(&format!("lgwin.{}", c.lgwin));
@@ -573,8 +609,8 @@ pub fn run_cmd(args: &Args) {
     // ---- search
     let cs = std::sync::Arc::new(rcases(thorough, args.seed));
     let cs2 = cs.clone();
-    let reps = par_tasks(cs.len(), move |i| { let mut r = Report::default(); run_rcase(&cs2[i], &mut r); r });
-    for r in reps { rep.merge(r); }
+    let reps = par_tasks(cs.len(), move |i| { let mut r = Report::default(); let mut l = Vec::new(); run_rcase(&cs2[i], &mut r, &mut l); (r, l) });
+    for (r, l) in reps { rep.merge(r); for (o, a) in l { corr.case(&o, &a); } }
     let _ = std::panic::take_hook();
     corr.finish();
     rep.write(&args.out);
